@@ -255,6 +255,7 @@ var (
 	failing    = map[string]error{}
 	presetFail = map[string]int{}
 	presetGate = map[string]chan struct{}{}
+	dialDelay  = map[string]time.Duration{}
 	seq        int
 )
 
@@ -270,6 +271,12 @@ func (d dialer) Dial(network, address string) (net.Conn, error) {
 	}
 	if ch == nil {
 		return nil, fmt.Errorf("memconn: nobody listening for %q", d.id)
+	}
+	dmu.Lock()
+	dd := dialDelay[d.id]
+	dmu.Unlock()
+	if dd > 0 {
+		time.Sleep(dd) // a dial that takes a while (DNS, a distant server)
 	}
 	c := newConn(address)
 	dmu.Lock()
@@ -318,6 +325,14 @@ func PresetGateWrites(proxyURL string) chan struct{} {
 	defer dmu.Unlock()
 	presetGate[u.Host] = g
 	return g
+}
+
+// PresetDialDelay makes every dial through proxyURL take that long.
+func PresetDialDelay(proxyURL string, d time.Duration) {
+	u, _ := url.Parse(proxyURL)
+	dmu.Lock()
+	defer dmu.Unlock()
+	dialDelay[u.Host] = d
 }
 
 // FailDial makes dials through proxyURL fail with err (nil = succeed again).
